@@ -18,6 +18,7 @@ var props = map[string]propFunc{
 	"C02": runC02,
 	"C05": runC05,
 	"C06": runC06,
+	"C07": runC07,
 	"C17": runC17,
 }
 
